@@ -15,6 +15,7 @@ import (
 	"os"
 	"path/filepath"
 	"runtime/pprof"
+	"sync"
 	"time"
 
 	"com.tuntun.rangers/node/src/core"
@@ -29,10 +30,11 @@ const (
 )
 
 type op struct {
-	Ids []int  `json:"ids,omitempty"` // Fork: ids of the fork's groups
-	Op  string `json:"op"`            // Add | Remove | Restart | Fork (G = common ancestor)
-	G   int    `json:"g,omitempty"`   // id index for Add
-	Pre int    `json:"pre,omitempty"` // claimed predecessor (98: the current last)
+	Ids  []int  `json:"ids,omitempty"`  // Fork: ids of the fork's groups
+	Pres []int  `json:"pres,omitempty"` // Fork: the predecessor each of them names (98 or absent: the one before it)
+	Op   string `json:"op"`             // Add | Remove | Restart | Fork (G = common ancestor)
+	G    int    `json:"g,omitempty"`    // id index for Add
+	Pre  int    `json:"pre,omitempty"`  // claimed predecessor (98: the current last)
 	// Conc: AddGroup(G, Pre) overlaps with B (an add or a removal); First = whose locked section runs first
 	B     *opB   `json:"b,omitempty"`
 	First string `json:"first,omitempty"`
@@ -232,6 +234,71 @@ func project() map[string]interface{} {
 	return st
 }
 
+// concurrentLookups: several goroutines look groups up by height and by id at the same time (no
+// writer); every answer must be the one a single goroutine got just before.
+func concurrentLookups() (lookups int, mismatches int, sample string) {
+	gc := core.GetGroupChain()
+	n := maxCount + 4
+	ref := make([]int, n)
+	for h := 0; h < n; h++ {
+		ref[h] = none
+		if g := gc.GetGroupByHeight(uint64(h)); g != nil {
+			ref[h] = indexOf(g.Id)
+		}
+	}
+	var mu sync.Mutex
+	var wg sync.WaitGroup
+	for w := 0; w < 6; w++ {
+		wg.Add(1)
+		go func(w int) {
+			defer wg.Done()
+			bad, cnt, first := 0, 0, ""
+			for it := 0; it < 60; it++ {
+				for k := 0; k < n; k++ {
+					h := (k*7 + w*3 + it) % n
+					got := none
+					if g := gc.GetGroupByHeight(uint64(h)); g != nil {
+						got = indexOf(g.Id)
+					}
+					cnt++
+					if got != ref[h] {
+						bad++
+						if first == "" {
+							first = fmt.Sprintf("height %d: %d instead of %d", h, got, ref[h])
+						}
+					}
+					if ref[h] != none {
+						cnt++
+						if g := gc.GetGroupById(idOf(ref[h])); g == nil || indexOf(g.Id) != ref[h] {
+							bad++
+						}
+					}
+				}
+			}
+			mu.Lock()
+			lookups += cnt
+			mismatches += bad
+			if sample == "" {
+				sample = first
+			}
+			mu.Unlock()
+		}(w)
+	}
+	wg.Wait()
+	return
+}
+
+func presOf(o op) []int {
+	out := make([]int, len(o.Ids))
+	for k := range out {
+		out[k] = 98
+		if k < len(o.Pres) {
+			out[k] = o.Pres[k]
+		}
+	}
+	return out
+}
+
 func mkGroup(i int, pre []byte) *types.Group {
 	h := &types.GroupHeader{Parent: genesis.Id, PreGroup: pre, CreateHeight: uint64(10 * i)}
 	h.Hash = h.GenHash()
@@ -292,7 +359,11 @@ func main() {
 				if rng.Intn(2) == 0 {
 					ids = append(ids, 1+rng.Intn(nIds))
 				}
-				h = append(h, op{Op: "Fork", G: rng.Intn(nIds + 1), Ids: ids})
+				f := op{Op: "Fork", G: rng.Intn(nIds + 1), Ids: ids}
+				if len(ids) == 2 && rng.Intn(3) == 0 {
+					f.Pres = []int{98, rng.Intn(nIds + 1)}
+				}
+				h = append(h, f)
 			default:
 				h = append(h, op{Op: "Restart"})
 			}
@@ -330,14 +401,17 @@ func main() {
 				if anc != nil && int(gc.Count())+len(o.Ids) <= maxCount+2 {
 					branch := []*types.Group{}
 					pre := anc.Id
-					for _, i := range o.Ids {
+					for k, i := range o.Ids {
+						if k < len(o.Pres) && o.Pres[k] != 98 {
+							pre = idOf(o.Pres[k])
+						}
 						g := mkGroup(i, pre)
 						branch = append(branch, g)
 						pre = g.Id
 					}
 					ok = core.VerifGroupForkSwitch(anc, branch)
 				}
-				tr.Emit(map[string]interface{}{"event": "Fork", "g": o.G, "ids": o.Ids, "ok": ok, "state": project()})
+				tr.Emit(map[string]interface{}{"event": "Fork", "g": o.G, "ids": o.Ids, "pres": presOf(o), "ok": ok, "state": project()})
 			case "Conc":
 				if int(gc.Count()) >= maxCount-1 {
 					continue
@@ -353,6 +427,10 @@ func main() {
 				vutil.Fatalf("unknown op %q", o.Op)
 			}
 			calls++
+		}
+		if n%3 == 0 {
+			lk, bad, smp := concurrentLookups()
+			tr.Emit(map[string]interface{}{"event": "Readers", "lookups": lk, "mismatches": bad, "sample": smp, "state": project()})
 		}
 	}
 	tr.Close()
